@@ -862,6 +862,8 @@ def run(ctx):
     ctx.assumptions += [
         "oracle contract (Section hypothesis of C12_dat_gram): numpy.linalg.qr returns R with Ys^T = Q R, Q^T Q = I, leading block invertible",
         "window/weight tables of the executed parametric model are MEASURED from build_hank on the unit-impulse basis (the property leaves them free)",
+        "C12_determined_by_impulses / C12_impl_equals_mm / C12_impl_equals_R: a map that is bilinear on the shape and agrees with the model on every impulse pair equals the "
+        "model on ALL data of that shape; the check supplies the second premise exhaustively (whole basis) and tests the first (bilinearity) on random dyadic data",
     ]
     # ---- shapes
     if ctx.quick():
